@@ -23,7 +23,7 @@ ASSUMPTIONS = [
     "while the runner executes, Python's recursion limit is lowered to 80 frames above the caller (a correct runner needs a few frames per "
     "target; a missed loop then fails after 80 frames instead of 1000, with the same RecursionError)",
     "VERIF_SEED is not used: both tiers explore their bound completely",
-    "targets requested twice, unknown targets, the default-target path and task failures are outside the property",
+    "targets requested twice, unknown targets and task failures are outside the property; the default-target path (empty request) is explored for every graph with every single default target and with none",
 ]
 CLAIM = {
     "text": "For every dependency graph and request inside the bound, the real TaskRunner ran exactly the requested targets and their "
@@ -144,6 +144,11 @@ def execute(n, adj, request, via, project=None):
             import io
             from ppci import api
             api.construct(io.StringIO(recipe_xml(n, adj)), [nm[i] for i in request])
+        elif via == "default":
+            # no target requested: the runner takes the project's default target (none: nothing runs)
+            proj = build_project(n, adj)
+            proj.default = nm[request[0]] if request else None
+            TaskRunner().run(proj, [])
         else:
             TaskRunner().run(project if project is not None else build_project(n, adj), [nm[i] for i in request])
     except TaskError as ex:
@@ -166,7 +171,7 @@ def check_config(p, n, adj, request, via="direct"):
         rc = rc * 5 + i
     order = (rank(n, adj) << 20) | (len(request) << 16) | (rc << 1) | (via == "api")
     wit = {"n": n, "adj": list(adj), "request": list(request), "via": via}
-    desc = fmt(n, adj, request) + (" via ppci.api.construct" if via == "api" else "")
+    desc = fmt(n, adj, request) + (" via ppci.api.construct" if via == "api" else " as the project's default target with an empty request" if via == "default" else "")
     kind, detail, hist = execute(n, adj, request, via)
     nm = names(n)
     ran = [a for a, _ in hist]
@@ -295,6 +300,11 @@ def worker(p, shard, n, loops, nparts, only_dags, via):
             p.count("graphs_n%d%s" % (n, "_api" if via == "api" else ""))
             for rq in reqs:
                 trans += check_config(p, n, adj, rq, via)
+            if via == "direct":
+                # the default-target path: run(project, []) with default = t_i must behave like the request [t_i]; without a default nothing runs
+                for i in range(n):
+                    trans += check_config(p, n, adj, (i,), "default")
+                trans += check_config(p, n, adj, (), "default")
     p.count("task_executions", trans)
 
 
